@@ -271,4 +271,38 @@ CONFIG = {
         "extra_modules": ["PatVerif.Proofs.Group", "PatVerif.Proofs.Sig"],
         "contradicts": "PatVerif.Props.C15",
     },
+    "C16": {
+        "rule": "17 operation groups covering the exported operations that take or return byte slices (Ed25519 and ECDSA key blinding, signing, "
+                "verification; all decoders; request creation, evaluation and finalization of types 1/2/3; attester calls; type-3 Evaluate; quicwire "
+                "append/consume): every argument is placed behind 8 sentinel bytes inside a buffer with 0/1/16/64/300 bytes of spare capacity, the whole "
+                "buffer is compared before/after, each operation runs twice with different spare contents (0xA5 / 0x3C) and must return identical "
+                "results; plus call histories per type (create → marshal → finalize → finalize another valid response → failing finalize → marshal; "
+                "evaluate twice) re-reading request encodings, ciphertexts, token fields and responses handed out earlier.",
+        "level_text": "In the slice/heap model: append touches only the slice's own array or the fresh one (append_other_arrays), writes exactly the bytes "
+                      "behind the slice's length when there is room (append_in_place) and nothing else (append_elsewhere), a derived string built in a "
+                      "fresh array leaves every other array unchanged (buildFresh_preserves), and re-appending the same bytes onto the same base slice "
+                      "reproduces the same array (append_idempotent; different bytes do not: append_other_bytes_changes) — Lean theorems for all heaps, "
+                      "slices and capacities. Which Go operation is which case is established by running every operation on sentinel-guarded buffers.",
+        "level_note": "The theorems are about the memory model, not about each Go function; the tie is the guarded-buffer stream (sampled). "
+                      "Memory reachable only through unsafe or cgo is out of scope.",
+        "trusted_base": COMMON_TB,
+        "assumptions": ["Go's append semantics as modelled (in place iff len+n ≤ cap)"],
+        "contradicts": "PatVerif.Props.C16",
+    },
+    "C18": {
+        "rule": "300/10000 RSA public keys: moduli of every byte length 1..520 with top bit set/clear/leading zero bytes, exponents "
+                "{1,3,65537,2^31-1,2^31,2^40,2^62,127,128,255,256,0,random}; both SubjectPublicKeyInfo forms encoded by Go and by the Lean DER "
+                "encoder (bytes compared), decoded by both; mutated encodings through the tolerant reader; the legacy form against "
+                "x509.MarshalPKIXPublicKey; key ids of type-1/2/3/5 issuers and the byte a request carries, and the type-3 name key id, "
+                "recomputed by the Lean SHA-256 from the serialized keys.",
+        "level_text": "algIdPSS_bytes (the AlgorithmIdentifier is the 63 prescribed bytes: SHA-384, MGF1-SHA-384, salt 48), spkiPSS_shape, "
+                      "unmarshal_spkiPSS / unmarshal_spkiLegacy (decoding inverts encoding for every modulus and every exponent with ≤ 8 content octets), "
+                      "over a DER model whose TLV round trip is proved for all four length forms and whose INTEGER round trip is proved for all naturals; "
+                      "key ids are executable definitions (SHA-256 of the serialized key, last byte, SHA-256 of the EncapKey encoding) compared with the issuers and clients.",
+        "level_note": "cryptobyte's ASN.1 builder/reader and encoding/asn1 are modelled (Model/DER.lean) and validated by the byte comparison; negative moduli/exponents are outside the model.",
+        "trusted_base": COMMON_TB + ["cryptobyte ASN.1 semantics as restated in Model/DER.lean", "PatVerif/Exec SHA-256"],
+        "assumptions": ["keys shorter than 2^32 bytes", "exponent fits 8 content octets (Go int)"],
+        "extra_modules": ["PatVerif.Proofs.DER"],
+        "contradicts": "PatVerif.Props.C18",
+    },
 }
